@@ -367,8 +367,38 @@ Proof. exact lookup_put_same. Qed.
 Definition key_exceeds (c : config) (k : skey) : Prop :=
   exists len, key_size k = Some len /\ max_key c < len.
 
+(* Every handler of the module is one of the three process_* functions (or nothing): the event as
+   the module sees it. *)
+Definition hev_op (e : hev) : option op :=
+  match e with
+  | HCreateNodeStart kvs => Some (OCreateNode kvs)
+  | HOpenStart k | HRemoveStart k => Some (OKey k)
+  | HWriteStart l => Some (OValue l)
+  | HSetStart k l => Some (OKeyValue k l)
+  | HCreateNodeIO a | HDropNodeIO a | HMoveModuleIO a | HOpenIO a | HReadIO a | HWriteIO a
+  | HSetIO a | HRemoveIO a | HScanKeysIO a | HDrainIO a | HScanSortedIO a => Some (OIo a)
+  | HCreateNodeEnd | HDropNodeStart | HDropNodeEnd | HOpenEnd | HReadOnRead
+  | HScanKeysStart | HDrainStart | HScanSortedStart => None
+  end.
+Definition is_OH (o : op) : bool := match o with OH _ => true | _ => false end.
+Definition norm (o : op) : option op := match o with OH e => hev_op e | _ => Some o end.
+
+Lemma handle_as_op : forall c f s e, limits_on f = true ->
+  handle c s e = match hev_op e with Some o => step c f s o | None => (s, ROk) end.
+Proof. intros c f s e Hf. destruct e; cbn [handle hev_op step]; rewrite ?Hf; reflexivity. Qed.
+Lemma step_norm : forall c f s o, limits_on f = true ->
+  step c f s o = match norm o with Some o' => step c f s o' | None => (s, ROk) end.
+Proof.
+  intros c f s o Hf. destruct o; try reflexivity. cbn [step norm]. rewrite Hf. apply handle_as_op. exact Hf.
+Qed.
+Lemma norm_not_OH : forall o o', norm o = Some o' -> is_OH o' = false.
+Proof.
+  intros o o' H. destruct o; cbn [norm] in H; try (inversion H; subst; reflexivity).
+  destruct e; cbn [hev_op] in H; inversion H; subst; reflexivity.
+Qed.
+
 (* the declarative meaning of "this event exceeds a limit in state s" (limits enabled) *)
-Definition exceeds (c : config) (f : flags) (s : state) (o : op) : Prop :=
+Definition exceeds_base (c : config) (f : flags) (s : state) (o : op) : Prop :=
   match o with
   | OKey k => key_exceeds c k
   | OValue l => max_value c < l
@@ -383,7 +413,11 @@ Definition exceeds (c : config) (f : flags) (s : state) (o : op) : Prop :=
   | OAddEventUnchecked size => max_event_size c < size
   | OPanicMsg size => max_panic_size c < size
   | OLockFeeEmit size => max_event_size c < size
+  | OH _ => False
   end.
+(* a handler event exceeds a limit iff the process_* call it makes does *)
+Definition exceeds (c : config) (f : flags) (s : state) (o : op) : Prop :=
+  match norm o with Some o' => exceeds_base c f s o' | None => False end.
 
 Lemma process_key_cases : forall c k,
   (process_key c k = ROk /\ ~ key_exceeds c k) \/
@@ -437,12 +471,12 @@ Ltac fin_case := cbn [snd fst]; first
   | right; left; eexists; split; [reflexivity| solve [lia | left; lia | right; lia | tauto ] ] ].
 
 (* one step: Ok iff the event does not exceed; an error only if it exceeds *)
-Lemma step_cases : forall c f s o, limits_on f = true ->
-  (snd (step c f s o) = ROk /\ ~ exceeds c f s o) \/
-  (exists e, snd (step c f s o) = RErr e /\ exceeds c f s o) \/
+Lemma step_cases_base : forall c f s o, limits_on f = true -> is_OH o = false ->
+  (snd (step c f s o) = ROk /\ ~ exceeds_base c f s o) \/
+  (exists e, snd (step c f s o) = RErr e /\ exceeds_base c f s o) \/
   (snd (step c f s o) = RPanic).
 Proof.
-  intros c f s o Hf. destruct o; cbn [step exceeds]; rewrite ?Hf; cbn [snd].
+  intros c f s o Hf Hoh. destruct o; [| | | | | | | | | | | | |discriminate]; cbn [step exceeds_base]; rewrite ?Hf; cbn [snd].
   - destruct (process_key_cases c k) as [[E N]|[(len & E & X)|[E _]]]; rewrite E; eauto.
   - unfold process_value. destruct (N.ltb_spec (max_value c) len); [right; left; eauto|left; split; [reflexivity|lia]].
   - destruct (process_key_value_cases c k len) as [[E N]|[(e & E & X)|E]]; rewrite E; eauto.
@@ -468,6 +502,17 @@ Proof.
   - unfold add_event_unchecked. rewrite Hf. cbn [andb]. destr_cmp; cbn [snd].
     + right; right. reflexivity.
     + left. split; [reflexivity|lia].
+Qed.
+
+Lemma step_cases : forall c f s o, limits_on f = true ->
+  (snd (step c f s o) = ROk /\ ~ exceeds c f s o) \/
+  (exists e, snd (step c f s o) = RErr e /\ exceeds c f s o) \/
+  (snd (step c f s o) = RPanic).
+Proof.
+  intros c f s o Hf. unfold exceeds. rewrite (step_norm c f s o Hf).
+  destruct (norm o) as [o'|] eqn:E.
+  - apply step_cases_base; [exact Hf|eapply norm_not_OH; exact E].
+  - left. split; [reflexivity|tauto].
 Qed.
 
 (* the run of a prefix; `len` counts events *)
@@ -577,6 +622,21 @@ Fixpoint guarded (prev_assert : bool) (ops : list op) : Prop :=
   | _ :: r => guarded false r
   end.
 
+Lemma process_io_keeps : forall c s a,
+  logs (fst (process_io c s a)) = logs s /\ events (fst (process_io c s a)) = events s /\
+  depth (fst (process_io c s a)) = depth s.
+Proof.
+  intros c s a. destruct a as [| |k o n|k o n]; cbn [process_io fst]; try (repeat split; reflexivity).
+  - destruct (upd_counter (heap s) k o n); cbn [fst]; repeat split; reflexivity.
+  - destruct (upd_counter (track s) k o n); cbn [fst]; repeat split; reflexivity.
+Qed.
+Lemma handle_keeps : forall c s e,
+  logs (fst (handle c s e)) = logs s /\ events (fst (handle c s e)) = events s /\
+  depth (fst (handle c s e)) = depth s.
+Proof.
+  intros c s e. destruct e; cbn [handle fst]; try (repeat split; reflexivity); apply process_io_keeps.
+Qed.
+
 Lemma step_state_within : forall c f s o s' (pa : bool),
   limits_on f = true ->
   StateWithin c s -> (pa = true -> events s < max_events c) ->
@@ -613,6 +673,8 @@ Proof.
   - specialize (Hpa Hg). unfold add_event_unchecked in H. rewrite Hf in H. cbn [andb] in H.
     revert H. destr_cmp; intros H; inversion H; subst.
     destruct (runtime_on f); unfold StateWithin; cbn [depth logs events set_events]; repeat split; try assumption; lia.
+  - destruct (handle_keeps c s e) as (K1 & K2 & K3). rewrite H in K1, K2, K3. cbn [fst] in K1, K2, K3.
+    unfold StateWithin. rewrite K1, K2, K3. repeat split; assumption.
 Qed.
 
 Lemma run_state_within_gen : forall c f ops s i s' (pa : bool),
@@ -652,7 +714,7 @@ Theorem io_ok_totals_within : forall c f s a s',
 Proof.
   intros c f s a s' Hf H.
   destruct (step_cases c f s (OIo a) Hf) as [[E1 N1]|[(e & E1 & X1)|E1]]; rewrite H in E1; cbn [snd] in E1; try discriminate.
-  cbn [exceeds] in N1. cbn [step] in H. rewrite Hf in H. rewrite H in N1. cbn [fst] in N1. lia.
+  unfold exceeds in N1. cbn [norm exceeds_base] in N1. cbn [step] in H. rewrite Hf in H. rewrite H in N1. cbn [fst] in N1. lia.
 Qed.
 
 (* no arithmetic panic while a transaction is alive: the counters are within the limits before
@@ -678,7 +740,7 @@ Qed.
 Definition KnownPanic (c : config) (f : flags) (o : op) : Prop :=
   exists size, o = OLockFeeEmit size /\ limits_on f = true /\ max_event_size c < size.
 
-Definition ArithPanic (s : state) (o : op) : Prop :=
+Definition ArithPanic_base (s : state) (o : op) : Prop :=
   match o with
   | OKey k | OKeyValue k _ => key_size k = None
   | OCreateNode kvs => exists k l, In (k, l) kvs /\ key_size k = None
@@ -686,6 +748,8 @@ Definition ArithPanic (s : state) (o : op) : Prop :=
   | OIo (IoTrack k o n) => upd_counter (track s) k o n = None
   | _ => False
   end.
+Definition ArithPanic (s : state) (o : op) : Prop :=
+  match norm o with Some o' => ArithPanic_base s o' | None => False end.
 
 Lemma process_key_panic : forall c k, process_key c k = RPanic -> key_size k = None.
 Proof.
@@ -707,16 +771,16 @@ Proof.
   - exists k, l. split; [left; reflexivity|eapply process_key_value_panic; exact E].
 Qed.
 
-Theorem step_panic_classified : forall c f s o,
-  snd (step c f s o) = RPanic -> KnownPanic c f o \/ ArithPanic s o.
+Lemma step_panic_classified_base : forall c f s o, is_OH o = false ->
+  snd (step c f s o) = RPanic -> KnownPanic c f o \/ ArithPanic_base s o.
 Proof.
-  intros c f s o H. destruct o; cbn [step] in H.
-  - right. cbn [ArithPanic]. destruct (limits_on f); cbn [snd] in H; [eapply process_key_panic; exact H|discriminate].
+  intros c f s o Hoh H. destruct o; [| | | | | | | | | | | | |discriminate]; cbn [step] in H.
+  - right. cbn [ArithPanic_base]. destruct (limits_on f); cbn [snd] in H; [eapply process_key_panic; exact H|discriminate].
   - destruct (limits_on f); cbn [snd] in H; [|discriminate]. unfold process_value in H. destruct (max_value c <? _); discriminate.
-  - right. cbn [ArithPanic]. destruct (limits_on f); cbn [snd] in H; [eapply process_key_value_panic; exact H|discriminate].
-  - right. cbn [ArithPanic]. destruct (limits_on f); cbn [snd] in H; [eapply process_create_node_panic; exact H|discriminate].
+  - right. cbn [ArithPanic_base]. destruct (limits_on f); cbn [snd] in H; [eapply process_key_value_panic; exact H|discriminate].
+  - right. cbn [ArithPanic_base]. destruct (limits_on f); cbn [snd] in H; [eapply process_create_node_panic; exact H|discriminate].
   - right. destruct (limits_on f); cbn [snd] in H; [|discriminate].
-    destruct a as [| |k o n|k o n]; cbn [process_io ArithPanic] in *.
+    destruct a as [| |k o n|k o n]; cbn [process_io ArithPanic_base] in *.
     + exfalso. cbn [snd] in H. eapply check_totals_not_panic; exact H.
     + exfalso. cbn [snd] in H. eapply check_totals_not_panic; exact H.
     + destruct (upd_counter (heap s) k o n); [|reflexivity]. exfalso. cbn [snd] in H. eapply check_totals_not_panic; exact H.
@@ -742,10 +806,177 @@ Proof.
     destruct (N.ltb_spec (max_event_size c) size); [split; [reflexivity|assumption]|discriminate].
 Qed.
 
+Theorem step_panic_classified : forall c f s o,
+  snd (step c f s o) = RPanic -> KnownPanic c f o \/ ArithPanic s o.
+Proof.
+  intros c f s o H. destruct (is_OH o) eqn:Hoh.
+  - destruct o; try discriminate. right. unfold ArithPanic. cbn [norm]. cbn [step] in H.
+    destruct (limits_on f) eqn:Hf; [|discriminate].
+    rewrite (handle_as_op c f s e Hf) in H. destruct (hev_op e) as [o'|] eqn:E; [|discriminate].
+    assert (is_OH o' = false) as Hn by (apply (norm_not_OH (OH e) o'); exact E).
+    destruct (step_panic_classified_base c f s o' Hn H) as [(size & -> & _)|A]; [|exact A].
+    destruct e; discriminate.
+  - destruct (step_panic_classified_base c f s o Hoh H) as [K|A]; [left; exact K|].
+    right. unfold ArithPanic. destruct o; try discriminate; exact A.
+Qed.
+
 (* the lock_fee event never panics when it fits *)
 Lemma lock_fee_emit_ok : forall c f s size, size <= max_event_size c ->
   snd (step c f s (OLockFeeEmit size)) = ROk.
 Proof.
   intros c f s size H. cbn [step]. unfold add_event_unchecked.
   destruct (N.ltb_spec (max_event_size c) size); [lia|]. rewrite andb_false_r. reflexivity.
+Qed.
+
+(* ------------------------------------------------------------------------------------------ *)
+(* F. counters over sequences of ALL events: IO accesses forwarded by any handler, mixed with   *)
+(*    any other event                                                                          *)
+(* ------------------------------------------------------------------------------------------ *)
+
+(* the eleven handlers that forward an IOAccess to process_io_access *)
+Inductive hio := HioCreateNode | HioDropNode | HioMoveModule | HioOpen | HioRead | HioWrite
+               | HioSet | HioRemove | HioScanKeys | HioDrain | HioScanSorted.
+Definition hio_ev (h : hio) (a : io) : hev :=
+  match h with
+  | HioCreateNode => HCreateNodeIO a | HioDropNode => HDropNodeIO a | HioMoveModule => HMoveModuleIO a
+  | HioOpen => HOpenIO a | HioRead => HReadIO a | HioWrite => HWriteIO a | HioSet => HSetIO a
+  | HioRemove => HRemoveIO a | HioScanKeys => HScanKeysIO a | HioDrain => HDrainIO a
+  | HioScanSorted => HScanSortedIO a
+  end.
+
+(* an event of an execution: an IO access (with the identity of its key) delivered through one of
+   the handlers (Some h) or straight to process_io_access (None), or any event without IO access *)
+Inductive aevent := AEIo (h : option hio) (a : aio) | AEOther (o : op).
+Definition carries_io (o : op) : bool := match norm o with Some (OIo _) => true | _ => false end.
+Definition aev_op (x : aevent) : op :=
+  match x with
+  | AEIo (Some h) a => OH (hio_ev h (proj a))
+  | AEIo None a => OIo (proj a)
+  | AEOther o => o
+  end.
+Definition aev_astep (st : store * store) (x : aevent) : store * store :=
+  match x with AEIo _ a => astep st a | AEOther _ => st end.
+Fixpoint consistent_ev (st : store * store) (evs : list aevent) : Prop :=
+  match evs with
+  | [] => True
+  | x :: r => (match x with AEIo _ a => aagrees st a /\ afits st a | AEOther o => carries_io o = false end)
+              /\ consistent_ev (aev_astep st x) r
+  end.
+Fixpoint aexec_ev (st : store * store) (evs : list aevent) : store * store :=
+  match evs with [] => st | x :: r => aexec_ev (aev_astep st x) r end.
+(* the state after all events, whatever the answers were *)
+Fixpoint exec_all (c : config) (f : flags) (s : state) (ops : list op) : state :=
+  match ops with [] => s | o :: r => exec_all c f (fst (step c f s o)) r end.
+(* no IO access is answered with a panic *)
+Fixpoint io_no_panic (c : config) (f : flags) (s : state) (evs : list aevent) : Prop :=
+  match evs with
+  | [] => True
+  | x :: r => (match x with AEIo _ _ => snd (step c f s (aev_op x)) <> RPanic | AEOther _ => True end)
+              /\ io_no_panic c f (fst (step c f s (aev_op x))) r
+  end.
+
+Lemma step_aev_io : forall c f s h a, limits_on f = true ->
+  step c f s (aev_op (AEIo h a)) = process_io c s (proj a).
+Proof.
+  intros c f s h a Hf. destruct h as [h|]; [destruct h|]; cbn [aev_op hio_ev step handle]; rewrite Hf; reflexivity.
+Qed.
+
+Lemma step_other_keeps_counters : forall c f s o, carries_io o = false ->
+  heap (fst (step c f s o)) = heap s /\ track (fst (step c f s o)) = track s.
+Proof.
+  intros c f s o H. destruct o; cbn [step]; try (cbn [fst]; split; reflexivity).
+  - unfold carries_io in H. cbn [norm] in H. discriminate.
+  - destruct (if limits_on f then before_invoke c s size else ROk); cbn [fst set_depth heap track]; split; reflexivity.
+  - unfold add_log. destruct (limits_on f && (max_logs c <=? logs s)); [split; reflexivity|].
+    destruct (limits_on f && (max_log_size c <? size)); [split; reflexivity|].
+    destruct (runtime_on f); cbn [fst set_logs heap track]; split; reflexivity.
+  - unfold assert_can_add_event, add_event_unchecked.
+    destruct (limits_on f && (max_events c <=? events s)); [split; reflexivity|].
+    destruct (limits_on f && (max_event_size c <? size)); [split; reflexivity|].
+    destruct (runtime_on f); cbn [fst set_events heap track]; split; reflexivity.
+  - unfold add_event_unchecked.
+    destruct (limits_on f && (max_event_size c <? size)); [split; reflexivity|].
+    destruct (runtime_on f); cbn [fst set_events heap track]; split; reflexivity.
+  - unfold add_event_unchecked.
+    destruct (limits_on f && (max_event_size c <? size)); [split; reflexivity|].
+    destruct (runtime_on f); cbn [fst set_events heap track]; split; reflexivity.
+  - destruct (limits_on f); [|split; reflexivity].
+    destruct e; cbn [handle fst]; try (split; reflexivity);
+      unfold carries_io in H; cbn [norm hev_op] in H; discriminate.
+Qed.
+
+Lemma inv_other : forall st s s', heap s' = heap s -> track s' = track s -> Inv st s -> Inv st s'.
+Proof. intros st s s' E1 E2 (H1 & H2 & H3 & H4). repeat split; try assumption; congruence. Qed.
+
+(* C49_counters_exact over all handlers *)
+Theorem counters_exact_all : forall c f evs st s,
+  limits_on f = true -> Inv st s -> consistent_ev st evs ->
+  Inv (aexec_ev st evs) (exec_all c f s (map aev_op evs)) /\ io_no_panic c f s evs.
+Proof.
+  intros c f. induction evs as [|x r IH]; intros st s Hf HI HC; cbn [map exec_all aexec_ev io_no_panic consistent_ev] in *.
+  - split; [exact HI|exact I].
+  - destruct HC as [Hx Hr]. destruct x as [h a|o].
+    + destruct Hx as [Ha Hfit]. rewrite (step_aev_io c f s h a Hf).
+      destruct (process_io_exact c st s a HI Ha Hfit) as (Hnp & HI' & _).
+      destruct (IH _ _ Hf HI' Hr) as [I1 I2]. split; [exact I1|split; [exact Hnp|exact I2]].
+    + cbn [aev_op aev_astep] in *. destruct (step_other_keeps_counters c f s o Hx) as [E1 E2].
+      destruct (IH st (fst (step c f s o)) Hf (inv_other _ _ _ E1 E2 HI) Hr) as [I1 I2].
+      split; [exact I1|split; [exact I|exact I2]].
+Qed.
+
+(* ------------------------------------------------------------------------------------------ *)
+(* G. the kernel call depth: root frame at depth 0, +1 per invocation that passes before_invoke, *)
+(*    -1 per return. Every reachable depth is <= max_call_depth, so `==` rejects exactly what   *)
+(*    `>=` would reject.                                                                        *)
+(* ------------------------------------------------------------------------------------------ *)
+
+Lemma step_state_within_depth_aux : forall c f s o,
+  depth (fst (step c f s o)) = depth s \/ (exists size, o = OInvoke size) \/ o = OReturn.
+Proof.
+  intros c f s o. destruct o; cbn [step]; try (left; reflexivity).
+  - left. destruct (limits_on f); [apply process_io_keeps|reflexivity].
+  - right; left. eauto.
+  - right; right. reflexivity.
+  - left. unfold add_log. destruct (limits_on f && (max_logs c <=? logs s)); [reflexivity|].
+    destruct (limits_on f && (max_log_size c <? size)); [reflexivity|]. destruct (runtime_on f); reflexivity.
+  - left. unfold assert_can_add_event, add_event_unchecked.
+    destruct (limits_on f && (max_events c <=? events s)); [reflexivity|].
+    destruct (limits_on f && (max_event_size c <? size)); [reflexivity|]. destruct (runtime_on f); reflexivity.
+  - left. unfold add_event_unchecked.
+    destruct (limits_on f && (max_event_size c <? size)); [reflexivity|]. destruct (runtime_on f); reflexivity.
+  - left. unfold add_event_unchecked.
+    destruct (limits_on f && (max_event_size c <? size)); [reflexivity|]. destruct (runtime_on f); reflexivity.
+  - left. destruct (limits_on f); [apply handle_keeps|reflexivity].
+Qed.
+
+Lemma step_depth : forall c f s o s', limits_on f = true ->
+  step c f s o = (s', ROk) -> depth s <= max_call_depth c -> depth s' <= max_call_depth c.
+Proof.
+  intros c f s o s' Hf H Hd.
+  destruct (step_state_within_depth_aux c f s o) as [E|[[size E]|E]]; [|subst o|subst o].
+  - rewrite H in E. cbn [fst] in E. lia.
+  - cbn [step] in H. rewrite Hf in H. unfold before_invoke in H.
+    destruct (N.eqb_spec (depth s) (max_call_depth c)); [discriminate|].
+    destruct (max_invoke c <? size); [discriminate|]. inversion H; subst. cbn [depth set_depth]. lia.
+  - cbn [step] in H. inversion H; subst. cbn [depth set_depth]. lia.
+Qed.
+
+Theorem run_depth_le : forall c f ops s i s', limits_on f = true ->
+  run c f s ops i = inl s' -> depth s <= max_call_depth c -> depth s' <= max_call_depth c.
+Proof.
+  induction ops as [|o r IH]; intros s i s' Hf H Hd; cbn [run] in H.
+  - inversion H; subst. exact Hd.
+  - destruct (step c f s o) as [s1 res] eqn:E. destruct res; try discriminate.
+    eapply IH; [exact Hf|exact H|]. eapply step_depth; [exact Hf|exact E|exact Hd].
+Qed.
+
+(* on every state a transaction can reach, the `==` of the code and `>=` give the same answer *)
+Theorem depth_eq_equiv_ge : forall c f pre s size, limits_on f = true ->
+  run c f state0 pre 0 = inl s -> before_invoke c s size = before_invoke_ge c s size.
+Proof.
+  intros c f pre s size Hf H.
+  assert (depth s <= max_call_depth c) as Hd
+    by (eapply run_depth_le; [exact Hf|exact H|unfold state0; cbn [depth]; lia]).
+  unfold before_invoke, before_invoke_ge.
+  destruct (N.eqb_spec (depth s) (max_call_depth c)); destruct (N.leb_spec (max_call_depth c) (depth s)); try reflexivity; lia.
 Qed.
